@@ -85,6 +85,12 @@ type emitter struct {
 	// which the initialization code has already been emitted.
 	alreadyInitializedTemplatePkgs map[string]bool
 
+	// alreadyCalledTemplateInits keeps track of the imported template files,
+	// by path, for which the call of the function that initializes the
+	// variables has already been emitted: a file imported by two imported
+	// files is initialized only once.
+	alreadyCalledTemplateInits map[string]bool
+
 	// alreadyEmittedPkgs maps the packages of a program that have already
 	// been emitted to their functions, variables and init functions, so that
 	// a package imported by two different packages is emitted, and then
@@ -110,6 +116,7 @@ func newEmitter(typeInfos map[ast.Node]*typeInfo, formatTypes map[ast.Format]ref
 		alreadyEmittedFuncs:            map[*ast.Func]*runtime.Function{},
 		alreadyInitializedVars:         map[*ast.Identifier]int16{},
 		alreadyInitializedTemplatePkgs: map[string]bool{},
+		alreadyCalledTemplateInits:     map[string]bool{},
 		alreadyEmittedPkgs:             map[*ast.Package]emittedPackage{},
 	}
 	em.fnStore = newFunctionStore(em)
